@@ -95,8 +95,8 @@ func prepStdh(variants ...string) func(c *ctx) error {
 		libSrc, _ := os.ReadFile(filepath.Join(verifRoot, "c", "stdh_lib.c"))
 		type variant struct{ name, cc, flags, ldflags string }
 		all := map[string]variant{
-			"san":    {"san", "gcc", "-g -O1 -fsanitize=address,undefined,bounds-strict -fno-sanitize-recover=all -fno-omit-frame-pointer", "-fsanitize=address,undefined"},
-			"noarch": {"noarch", "gcc", "-g -O1 -DWUFFS_CONFIG__AVOID_CPU_ARCH -fsanitize=address,undefined,bounds-strict -fno-sanitize-recover=all -fno-omit-frame-pointer", "-fsanitize=address,undefined"},
+			"san":    {"san", "gcc", "-g -O1 -fsanitize=address,undefined,bounds-strict -fno-sanitize=nonnull-attribute -fno-sanitize-recover=all -fno-omit-frame-pointer", "-fsanitize=address,undefined"},
+			"noarch": {"noarch", "gcc", "-g -O1 -DWUFFS_CONFIG__AVOID_CPU_ARCH -fsanitize=address,undefined,bounds-strict -fno-sanitize=nonnull-attribute -fno-sanitize-recover=all -fno-omit-frame-pointer", "-fsanitize=address,undefined"},
 			"o2":     {"o2", "gcc", "-O2", ""},
 		}
 		var wg sync.WaitGroup
